@@ -74,3 +74,6 @@ func DeclareInv(proto interface{}, pred interface{}) {}
 func CheckInvOnWrite(on bool)                         {}
 func FixField(field, value string)                    {}
 func SetBound(nameSuffix string, n int)               {}
+func ExactMul(on bool) {}
+func Verified(owner string, msgPtr interface{}) bool { return false }
+func VerifiedBy(did string) bool                     { return false }
